@@ -60,6 +60,7 @@ type Config struct {
 	Users                      []string
 	FundColl                   int64
 	FundDebt                   int64 // fixture-minted debt coins per user (bidders), recorded as fixtureMint
+	Decoy                      bool  // a second app registered BEFORE the app under test (so its id is lower and the app under test is not id 1), whitelisted for both liquidation generations, with its circuit breaker and its emergency shutdown on: nothing of it may leak into the app under test
 	CollectorFund              int64 // fixture-minted debt coins booked as the app's net fees of the debt asset (a collector rich enough to cover any auction loss)
 	Interest                   bool  // register app in rewards so that stability-fee interest accrues
 	Bonus                      Frac  // auction bonus of externally initiated auctions
@@ -168,9 +169,20 @@ func Setup(cfg Config) *World {
 		funds = append(funds, sim.Fund{Name: u})
 	}
 	w := &World{Env: sim.New(funds), Cfg: cfg, Assets: map[string]uint64{}, Decs: map[string]int64{}, Denoms: AllDenoms}
+	if cfg.Decoy {
+		must(w.App.AssetKeeper.AddAppRecords(w.Ctx, assettypes.AppData{Name: "decoy", ShortName: "dcy", MinGovDeposit: sdk.NewInt(1), GovTimeInSeconds: 1}))
+	}
 	must(w.App.AssetKeeper.AddAppRecords(w.Ctx, assettypes.AppData{Name: "harbor", ShortName: "hbr", MinGovDeposit: sdk.NewInt(1), GovTimeInSeconds: 1}))
 	apps, _ := w.App.AssetKeeper.GetApps(w.Ctx)
-	w.App1 = apps[0].Id
+	var decoyID uint64
+	for _, ap := range apps {
+		if ap.Name == "harbor" {
+			w.App1 = ap.Id
+		}
+		if ap.Name == "decoy" {
+			decoyID = ap.Id
+		}
+	}
 	// the band validation flag is what keeps market.BeginBlocker from switching every price off each block
 	w.App.BandoracleKeeper.SetOracleValidationResult(w.Ctx, true)
 	uc := w.addAsset("CMDX", "ucm", cfg.DecC, true)
@@ -249,6 +261,14 @@ func Setup(cfg Config) *World {
 		}
 		must(w.App.BankKeeper.MintCoins(w.Ctx, vaulttypes.ModuleName, coins))
 		must(w.App.BankKeeper.SendCoinsFromModuleToAccount(w.Ctx, vaulttypes.ModuleName, sim.Addr(u), coins))
+	}
+	if cfg.Decoy {
+		must(w.App.LiquidationKeeper.WasmWhitelistAppIDLiquidation(w.Ctx, decoyID))
+		w.App.NewliqKeeper.SetLiquidationWhiteListing(w.Ctx, liqtypes.LiquidationWhiteListing{AppId: decoyID, Initiator: true, IsDutchActivated: true,
+			DutchAuctionParam: &dutch, IsEnglishActivated: true, EnglishAuctionParam: &eng, KeeeperIncentive: sdk.MustNewDecFromStr("0.1")})
+		must(w.App.EsmKeeper.SetKillSwitchData(w.Ctx, esmtypes.KillSwitchParams{AppId: decoyID, BreakerEnable: true}))
+		w.App.EsmKeeper.SetESMStatus(w.Ctx, esmtypes.ESMStatus{AppId: decoyID, Status: true, EndTime: w.Ctx.BlockTime().Add(1000000 * time.Hour),
+			VaultRedemptionStatus: true, SnapshotStatus: true, StableVaultRedemptionStatus: true, CollectorTransaction: true, ShareCalculation: true})
 	}
 	if cfg.CollectorFund > 0 {
 		fund := sdk.NewCoins(sdk.NewInt64Coin("ust", cfg.CollectorFund))
